@@ -177,10 +177,12 @@ def decode_frame(raw: bytes) -> dict:
 
 # -------------------------------------------------------------- stream decoder
 
-SWITCHES = ("ESC-FLAG", "ESC-ESC", "ACK-LEN", "DATA-LEN", "VER", "RETX-OOS")
+SWITCHES = ("ESC-FLAG", "ACK-LEN", "DATA-LEN", "VER", "RETX-OOS")
 # Setting 0 of every switch is the first-listed behaviour in DESIGN.md section 3.2
 #   ESC-FLAG : 0 escape before flag has no effect      1 frame rejected
-#   ESC-ESC  : 0 invalid escape -> frame rejected      1 first escape has no effect
+#   (two escape bytes in a row are NOT a don't-care: the second byte does not unescape to a reserved value,
+#    so it is an invalid escape and the frame is rejected - the property statement says an invalid escape
+#    never produces an upward delivery; an independently seeded change showed the former switch hid that)
 #   ACK-LEN  : 0 ACK/NAK with extra data accepted      1 rejected
 #   DATA-LEN : 0 data field up to 256 bytes delivered  1 only 3..128 delivered
 #   VER      : 0 RSTACK/ERROR version != 2 rejected    1 accepted
@@ -256,12 +258,6 @@ class StreamDecoder:
                 i += 1
                 continue
             nxt = stuffed[i + 1]
-            if nxt == ESC:
-                self.touched.add("ESC-ESC")
-                if not sw["ESC-ESC"]:
-                    return self._reject()
-                i += 1  # first escape has no effect
-                continue
             v = nxt ^ 0x20
             if v not in RESERVED:
                 return self._reject()  # strict: invalid escape never delivers
